@@ -1,0 +1,19 @@
+//go:build verif
+
+// Verification-only re-exports (guard: -tags verif).  Add-only.
+package ipamplugin
+
+import (
+	"github.com/containernetworking/cni/pkg/skel"
+
+	"github.com/projectcalico/calico/cni-plugin/internal/pkg/utils"
+	"github.com/projectcalico/calico/cni-plugin/pkg/types"
+	client "github.com/projectcalico/calico/libcalico-go/lib/clientv3"
+)
+
+// VerifSetClient registers the client factory used by utils.CreateClient.
+func VerifSetClient(f func(conf types.NetConf) client.Interface) { utils.VerifClient = f }
+
+// VerifCmdAdd / VerifCmdDel run the real CNI IPAM ADD / DEL commands.
+func VerifCmdAdd(args *skel.CmdArgs) error { return cmdAdd(args) }
+func VerifCmdDel(args *skel.CmdArgs) error { return cmdDel(args) }
